@@ -21,7 +21,9 @@ CLAUSES = (
     'handled by the same recursion as natural messages; the result is '
     'written to the DB and flushed; setting prerequisites keeps only '
     'prerequisites the task actually has (valid & requested) and goes '
-    'through force_satisfy. Not decided: that the spawned child set equals '
+    'through force_satisfy. '
+    'Completed outputs are rebuilt from the db by trigger, never from the recorded messages (which hold a marker for outputs set by hand). '
+    'Not decided: that the spawned child set equals '
     'natural completion for every graph.')
 
 TEM = 'task_events_mgr'
@@ -29,6 +31,8 @@ TP = 'task_pool'
 
 
 def check(c):
+    from rules._shared import outputs_column_by_trigger_rules
+    outputs_column_by_trigger_rules(c, 'C29.persisted-by-trigger')
     rs = c.func('task_state', 'TaskState.reset')
     for s in c.stores(rs, 'status'):
         c.guard('C29.no-forced-active', s.node, [AnyOf(
@@ -198,6 +202,12 @@ def _arm(c, n, ev):
 
 
 VARIANTS = [
+    ('history-outputs-by-message', 'cylc/flow/task_pool.py',
+     '''                        for trigger in outputs.keys():
+                            itask.state.outputs.set_trigger_complete(trigger)''',
+     '''                        for msg in outputs.values():
+                            itask.state.outputs.set_message_complete(msg)''',
+     'C29.persisted-by-trigger'),
     ('forced-submitted-state', 'cylc/flow/task_events_mgr.py',
      '''            if not forced:
                 # `cylc set --out submitted` only spawns children; it doesn't
